@@ -48,6 +48,9 @@ func runProperty[S any](t *testing.T, id string, gen func(*rapid.T) S, run func(
 	defer st.Flush()
 	if p := os.Getenv("VERIF_REPLAY"); p != "" {
 		var sc S
+		if u := sim.ReplayUnit(p); u != "" && u != t.Name() {
+			t.Skipf("replay belongs to %s", u)
+		}
 		if err := sim.LoadReplay(p, &sc); err != nil {
 			t.Fatalf("cannot load replay: %v", err)
 		}
@@ -60,7 +63,7 @@ func runProperty[S any](t *testing.T, id string, gen func(*rapid.T) S, run func(
 		}
 		st.Case(sc, v.nontrivial, v.labels...)
 		if len(fail) > 0 {
-			st.SaveReplay(sc, fail)
+			st.SaveReplay(t.Name(), sc, fail)
 			t.Fatalf("%d violation(s)", len(fail))
 		}
 		fmt.Println("REPLAY-OK")
@@ -69,6 +72,9 @@ func runProperty[S any](t *testing.T, id string, gen func(*rapid.T) S, run func(
 	files, _ := filepath.Glob(filepath.Join(regressDir(id), "*.json"))
 	sort.Strings(files)
 	for _, f := range files {
+		if u := sim.ReplayUnit(f); u != "" && u != t.Name() {
+			continue
+		}
 		var sc S
 		if err := sim.LoadReplay(f, &sc); err != nil {
 			t.Fatalf("regress file %s: %v", f, err)
@@ -77,7 +83,7 @@ func runProperty[S any](t *testing.T, id string, gen func(*rapid.T) S, run func(
 		st.Label("regress")
 		st.Case(sc, v.nontrivial, v.labels...)
 		if fail := st.Judge(v.vs); len(fail) > 0 {
-			st.SaveReplay(sc, fail)
+			st.SaveReplay(t.Name(), sc, fail)
 			t.Fatalf("regress case %s fails: %v", filepath.Base(f), fail)
 		}
 	}
@@ -86,11 +92,11 @@ func runProperty[S any](t *testing.T, id string, gen func(*rapid.T) S, run func(
 	}
 	rapid.Check(t, func(rt *rapid.T) {
 		sc := gen(rt)
-		sim.CaseFile(id, sc)
+		sim.CaseFile(id, t.Name(), sc)
 		v := run(t, sc)
 		st.Case(withOutcome(sc, v), v.nontrivial, v.labels...)
 		if fail := st.Judge(v.vs); len(fail) > 0 {
-			st.SaveReplay(sc, fail)
+			st.SaveReplay(t.Name(), sc, fail)
 			msgs := []string{}
 			for _, x := range fail {
 				msgs = append(msgs, x.String())
